@@ -37,34 +37,36 @@ func (r *Rng) Perm(n int) []int {
 
 // Profile weights op kinds and sets generator limits.
 type Profile struct {
-	Name      string
-	W         [NKinds]int
-	MaxAlive  int
-	RelPct    int // chance that a component choice includes relation comps
-	TypedPct  int // chance to use a typed path when feasible
-	HotComps  int // size of the per-case hot component set
-	MaxComps  int // max components per creation
-	ObsSlots  int
-	FilterSlots int
-	QuerySlots int
-	TargetPool int // number of entities preferred as relation targets
+	Name               string
+	W                  [NKinds]int
+	MaxAlive           int
+	RelPct             int // chance that a component choice includes relation comps
+	TypedPct           int // chance to use a typed path when feasible
+	HotComps           int // size of the per-case hot component set
+	MaxComps           int // max components per creation
+	ObsSlots           int
+	FilterSlots        int
+	QuerySlots         int
+	TargetPool         int // number of entities preferred as relation targets
 	DeadTargetQueryPct int
-	StaleQueries bool
-	ProbePct  int
-	UnregInCbPct int
-	MaxBatchNew int
-	ShrinkLockedOK bool
-	NoShrink bool // avoid Shrink entirely (known finding avoid rule)
-	Avoid    map[string]bool // active avoid rules for known findings
+	StaleQueries       bool
+	ProbePct           int
+	UnregInCbPct       int
+	MaxBatchNew        int
+	ShrinkLockedOK     bool
+	NoShrink           bool            // avoid Shrink entirely (known finding avoid rule)
+	HotFixed           []int           // if set, the hot component set
+	DetShrink          bool            // only Shrink() and Shrink(0): time-limited Shrink stops at a wall-clock dependent point
+	Avoid              map[string]bool // active avoid rules for known findings
 }
 
 // Gen generates ops from the model state.
 type Gen struct {
-	R    *Rng
-	M    *Model
-	P    *Profile
-	Val  int64
-	Hot  []int
+	R         *Rng
+	M         *Model
+	P         *Profile
+	Val       int64
+	Hot       []int
 	nObsEpoch int
 }
 
@@ -76,6 +78,9 @@ func NewGen(r *Rng, m *Model, p *Profile) *Gen {
 		n = u.N
 	}
 	g.Hot = perm[:n]
+	if p.HotFixed != nil {
+		g.Hot = append([]int{}, p.HotFixed...)
+	}
 	// make sure a relation is hot if relations matter
 	if p.RelPct > 0 {
 		has := false
@@ -794,6 +799,9 @@ func (g *Gen) make(k Kind) *Op {
 			return nil
 		}
 		op.Sub = R.Intn(4)
+		if P.DetShrink {
+			op.Sub = R.Intn(2)
+		}
 	case KRegFilter:
 		// (re-)register an existing slot or create a new one
 		var free, unreg []int
@@ -1077,6 +1085,24 @@ func (g *Gen) misuseOp() *Op {
 		st := &g.M.Ents[e]
 		for _, c := range R.Perm(u.N) {
 			if !st.Mask.Has(c) {
+				op.Rem = []int{c}
+				break
+			}
+		}
+		op.Sub = 0
+	case "debugguard":
+		// an entity with at least one component, lacking all relation components and one more component
+		e, ok := g.pickAliveWhere(func(e EID, st *MEnt) bool {
+			return st.Mask != 0 && !st.Mask.Intersects(RelMask) && st.Mask.Len() < u.N-3
+		})
+		if !ok {
+			return nil
+		}
+		op.E = e
+		st := &g.M.Ents[e]
+		op.Add = st.Mask.List()
+		for _, c := range R.Perm(u.N) {
+			if !st.Mask.Has(c) && !u.Types[c].IsRel {
 				op.Rem = []int{c}
 				break
 			}
